@@ -37,6 +37,28 @@ fn gen_searcher(rng: &mut Rng, pal: &[u8], many_ok: bool) -> SearcherSpec {
             opts.match_kind = MKind::LeftmostFirst;
         }
     }
+    if !packed && pal.len() >= 6 && rng.chance(1, 2) {
+        // a leftmost searcher for which the builder picks the *packed prefilter*
+        // (2-16 patterns of length >= 2 with >= 3 distinct start bytes), with one
+        // pattern nested inside another so that earliest and leftmost answers differ
+        let n = rng.range(4, 8);
+        patterns.clear();
+        for i in 0..n {
+            let l = rng.range(2, 5);
+            let mut p: Vec<u8> = (0..l).map(|_| *rng.pick(pal)).collect();
+            p[0] = pal[i % pal.len()];
+            patterns.push(p);
+        }
+        let host = patterns[0].clone();
+        if host.len() >= 3 {
+            patterns.push(host[1..host.len() - (host.len() > 3) as usize].to_vec());
+        }
+        patterns.retain(|p| p.len() >= 2);
+        opts.match_kind = *rng.pick(&[MKind::LeftmostFirst, MKind::LeftmostLongest]);
+        opts.prefilter = true;
+        opts.case_insensitive = false;
+        opts.surface = Surface::Top;
+    }
     let packed_cfg = if packed { *rng.pick(&[0u8, 0, 0, 1, 2, 3, 4, 5]) } else { 0 };
     SearcherSpec { patterns, opts, packed, packed_cfg }
 }
@@ -529,6 +551,28 @@ pub fn gen_thread(class: &str, seed: u64, idx: u64) -> ThreadScenario {
         let n = r.range(ops_lo, ops_hi);
         let ops: Vec<Op> = (0..n).map(|_| gen_op(r, &sc, &pal, 0)).collect();
         sc.threads.push(ops);
+    }
+    if class == "hist" {
+        // "wear, then probe": after the random history every searcher is probed with
+        // the plain search kinds (earliest / leftmost, iterator, is_match) over every
+        // scenario-owned haystack, so that state flipped by the history (adaptive
+        // heuristics, thresholds) meets a search whose answer depends on it
+        let mut probes = Vec::new();
+        for s in 0..sc.searchers.len() {
+            for h in 0..sc.fixed_hays.len() {
+                if sc.fixed_hays[h].len() > 4096 {
+                    continue;
+                }
+                let q = |earliest: bool| Search { s, hay: Hay::Fixed(h), span: None, anchored: false, earliest };
+                probes.push(Op::Find(q(true)));
+                probes.push(Op::Find(q(false)));
+                if !sc.searchers[s].packed {
+                    probes.push(Op::IsMatch(q(false)));
+                }
+                probes.push(Op::Iter { kind: IterKind::Find, q: q(false), limit: None });
+            }
+        }
+        sc.threads[0].extend(probes);
     }
     // handoff pairs: an iterator started on one thread, drained on another
     let pairs = if class == "hist" { r.below(3) } else if r.chance(2, 5) { r.range(1, 2) } else { 0 };
